@@ -288,6 +288,20 @@ def run(run, model):
     run.try_rule(c06.r06_2, model)
     run.try_rule(c06.r06_7, model)
     run.try_rule(c06.r06_8, model)
+    # C01 is the umbrella over match compilation, monomorphisation, closure conversion, ANF, Go generation and DCE: the
+    # structural clauses of those stages are necessary conditions of it as well and are evaluated here too
+    from lib.mir import Mir
+    from rules import c07, c08, c10, c02
+    mir = None
+    try:
+        mir = Mir(run.facts)
+    except AnalysisIncomplete:
+        mir = None
+    if mir is not None:
+        run.try_rule(c06.r06_1, model, mir)
+    for fn_ in (c06.r06_3, c06.r06_4, c06.r06_5, c06.r06_9, c07.r07_1, c07.r07_2, c07.r07_3, c07.r07_4, c07.r07_5, c07.r07_6,
+                c08.r08_1, c08.r08_2, c08.r08_3, c09.r09_2, c09.r09_4, c09.r09_5, c10.r10_3, c02.r02_8):
+        run.try_rule(fn_, model)
     run.assume("pipeline::compile returns the AST only when lowering pushed no error, so a None after push_error cannot reach later stages")
     run.assume("`?` on a raw CST accessor in ast::lower is sound only if the parser emits that child in every error-free tree (not decided here)")
     run.assume("restructuring arms (decision trees, closure conversion, ANF naming, Go statement shapes) are outside R01.4 by construction: they build a different variant")
